@@ -90,4 +90,56 @@ theorem read_write_twice (k1 k2 k3 k4 : Nat) (h1 : 0 < k1) (h2 : 0 < k2) (h3 : 0
   rw [read_write k3 k4 h3 h4 M1 nv hR, e1]
   simp [List.map_map, Function.comp_def, pgenStore_idem]
 
+/-! ## Restricted reads: sample subset, variant indices, any chunk size
+
+`GenotypesPLINK.read(region, samples, variants, max_variants)` first turns its restrictions into the list of `.pvar` row
+numbers `indices` (Model/Scan, C08) and the list of `.psam` row numbers `sample_idxs`, then loops over *positions* of
+`indices` in chunks: `read_alleles_list(indices[start:end], buffer)`, `data[:, start:end] = buffer`.  -/
+
+/-- the matrix a restricted read fills: for every selected sample, chunk after chunk of the selected variant rows -/
+def readSel (k : Nat) (hk : 0 < k) (file : List (List Cell)) (sidx vidx : List Nat) : Matrix :=
+  sidx.map (fun s =>
+    (chunksFrom k vidx.length hk 0).flatMap (fun c =>
+      (List.range' c.1 (c.2 - c.1)).map (fun p => (file.getD (vidx.getD p 0) []).getD s dflt)))
+
+theorem map_positions {β} (l : List Nat) (g : Nat → β) :
+    (List.range' 0 l.length).map (fun p => g (l.getD p 0)) = l.map g := by
+  apply List.ext_getElem
+  · simp
+  · intro i h1 h2
+    simp only [List.length_map, List.length_range'] at h1
+    simp [List.getD, h1]
+
+/-- a restricted read is the selection, whatever the chunk size: row `s`, column `v` of the file for the selected `s`, `v`,
+    in the order of the selection -/
+theorem readSel_eq (k : Nat) (hk : 0 < k) (file : List (List Cell)) (sidx vidx : List Nat) :
+    readSel k hk file sidx vidx = sidx.map (fun s => vidx.map (fun v => (file.getD v []).getD s dflt)) := by
+  unfold readSel
+  congr 1
+  funext s
+  rw [flatMap_chunks_map k vidx.length hk (fun p => (file.getD (vidx.getD p 0) []).getD s dflt)]
+  exact map_positions vidx (fun v => (file.getD v []).getD s dflt)
+
+theorem readSel_chunk_irrelevant (k₁ k₂ : Nat) (h₁ : 0 < k₁) (h₂ : 0 < k₂) (file : List (List Cell)) (sidx vidx : List Nat) :
+    readSel k₁ h₁ file sidx vidx = readSel k₂ h₂ file sidx vidx := by
+  rw [readSel_eq, readSel_eq]
+
+theorem cell_read (k : Nat) (hk : 0 < k) (file : List (List Cell)) (ns nv s v : Nat) (hs : s < ns) (hv : v < nv) :
+    cell (read k hk file ns nv) s v = (file.getD v []).getD s dflt := by
+  rw [read_eq]
+  unfold cell
+  simp [List.getD, hs, hv]
+
+/-- **restricted read = full read + subset** at the level of the matrix: every cell of the restricted read is the cell of the
+    full read at the selected (sample row, variant row), for any two chunk sizes -/
+theorem readSel_eq_subset_of_read (k k' : Nat) (hk : 0 < k) (hk' : 0 < k') (file : List (List Cell)) (ns nv : Nat)
+    (sidx vidx : List Nat) (hs : ∀ s ∈ sidx, s < ns) (hv : ∀ v ∈ vidx, v < nv) :
+    readSel k hk file sidx vidx = sidx.map (fun s => vidx.map (fun v => cell (read k' hk' file ns nv) s v)) := by
+  rw [readSel_eq]
+  apply List.map_congr_left
+  intro s hsm
+  apply List.map_congr_left
+  intro v hvm
+  exact (cell_read k' hk' file ns nv s v (hs s hsm) (hv v hvm)).symm
+
 end PgenMatrix
